@@ -1,25 +1,1855 @@
-//! C12 — not built yet (stub).
+//! C12 — aggregations are exact and independent of segmentation.
+//!
+//! One case = a corpus, 3–5 segment layouts of that corpus (one segment … one document per
+//! segment, with stale versions / deleted ghosts mixed in), a query and an aggregation tree.
+//!
+//! * finder (implementation only): the aggregation response of every layout equals an
+//!   independent computation in Rust over the matched live documents (`oracle`), hence the
+//!   layouts equal each other.  Each mismatch is attributed to the shallowest aggregation node
+//!   whose own data differ and classified by a predicate checked on the failing case.
+//! * correspondence: `SL.Aggs.run` (collect per segment → merge → finalize) vs the
+//!   implementation for every layout; `SL.Aggs.Spec.agg` vs the Rust oracle.
+use crate::idx;
 use crate::proto::Driver;
 use crate::rng::Rng;
 use crate::summary::Summary;
+use crate::util::scratch;
 use crate::{Prop, Tier};
-use serde_json::{json, Value};
+use serde_json::{json, Map, Value};
+use std::collections::{BTreeMap, BTreeSet};
 
-pub struct Stub;
-pub static P: Stub = Stub;
+pub struct C12;
+pub static P: C12 = C12;
 
-impl Prop for Stub {
+pub const KW_FIELDS: [&str; 2] = ["k1", "k2"];
+pub const I64_FIELDS: [&str; 3] = ["i1", "i2", "t1"];
+pub const DATE_BASE: i64 = 1_609_459_200_000; // 2021-01-01T00:00:00Z
+pub const F64_FIELDS: [&str; 2] = ["f1", "f2"];
+pub const KW_VALUES: [&str; 6] = ["a", "b", "c", "d", "e", "f"];
+const REL: f64 = 1e-9;
+
+pub fn schema_json() -> Value {
+  let kw: Vec<Value> = KW_FIELDS.iter().map(|n| json!({"name": n, "stored": true, "indexed": true, "fast": true, "nullable": false})).collect();
+  let mut num: Vec<Value> = Vec::new();
+  for n in I64_FIELDS {
+    num.push(json!({"name": n, "i64": true, "fast": true, "stored": true, "nullable": false}));
+  }
+  for n in F64_FIELDS {
+    num.push(json!({"name": n, "i64": false, "fast": true, "stored": true, "nullable": false}));
+  }
+  json!({"doc_id_field": "_id", "text_fields": [], "keyword_fields": kw, "numeric_fields": num})
+}
+
+pub fn field_kinds() -> Value {
+  let mut m = Map::new();
+  for f in KW_FIELDS {
+    m.insert(f.to_string(), json!("kw"));
+  }
+  for f in I64_FIELDS {
+    m.insert(f.to_string(), json!("i64"));
+  }
+  for f in F64_FIELDS {
+    m.insert(f.to_string(), json!("f64"));
+  }
+  Value::Object(m)
+}
+
+pub fn is_i64(f: &str) -> bool {
+  I64_FIELDS.contains(&f)
+}
+pub fn is_kw(f: &str) -> bool {
+  KW_FIELDS.contains(&f)
+}
+
+// ------------------------------------------------------------------ documents
+
+#[derive(Clone, Debug)]
+pub struct Doc {
+  pub id: String,
+  pub kw: BTreeMap<String, Vec<String>>,
+  pub num: BTreeMap<String, Vec<f64>>,
+}
+
+pub fn parse_doc(v: &Value) -> Doc {
+  let mut d = Doc { id: v["_id"].as_str().unwrap_or("").to_string(), kw: BTreeMap::new(), num: BTreeMap::new() };
+  for f in KW_FIELDS {
+    let vals: Vec<String> = match &v[f] {
+      Value::String(s) => vec![s.clone()],
+      Value::Array(a) => a.iter().filter_map(|x| x.as_str().map(|s| s.to_string())).collect(),
+      _ => vec![],
+    };
+    d.kw.insert(f.to_string(), vals);
+  }
+  for f in I64_FIELDS.iter().chain(F64_FIELDS.iter()) {
+    let vals: Vec<f64> = match &v[*f] {
+      Value::Number(n) => vec![n.as_f64().unwrap_or(0.0)],
+      Value::Array(a) => a.iter().filter_map(|x| x.as_f64()).collect(),
+      _ => vec![],
+    };
+    d.num.insert(f.to_string(), vals);
+  }
+  d
+}
+
+impl Doc {
+  pub fn kws(&self, f: &str) -> &[String] {
+    self.kw.get(f).map(|v| v.as_slice()).unwrap_or(&[])
+  }
+  pub fn nums(&self, f: &str) -> &[f64] {
+    self.num.get(f).map(|v| v.as_slice()).unwrap_or(&[])
+  }
+  pub fn nums_or(&self, f: &str, missing: Option<f64>) -> Vec<f64> {
+    let v = self.nums(f);
+    if v.is_empty() {
+      missing.into_iter().collect()
+    } else {
+      v.to_vec()
+    }
+  }
+  /// the model's view of the document
+  pub fn model_json(&self, ord: usize) -> Value {
+    json!({"id": ord, "kw": self.kw, "num": self.num})
+  }
+}
+
+fn quarter(rng: &mut Rng, lo: i64, hi: i64) -> f64 {
+  rng.range(lo * 4, hi * 4) as f64 / 4.0
+}
+
+pub fn gen_doc(rng: &mut Rng, id: String) -> Value {
+  let mut m = Map::new();
+  m.insert("_id".into(), json!(id));
+  // skewed keyword choice so that some keys are frequent and some rare
+  let kwv = |rng: &mut Rng| -> String {
+    let r = rng.below(12);
+    KW_VALUES[match r {
+      0..=3 => 0,
+      4..=6 => 1,
+      7..=8 => 2,
+      9 => 3,
+      10 => 4,
+      _ => 5,
+    }]
+    .to_string()
+  };
+  if !rng.chance(1, 5) {
+    m.insert("k1".into(), json!(kwv(rng)));
+  }
+  match rng.below(5) {
+    0 => {}
+    1 => {
+      m.insert("k2".into(), json!(kwv(rng)));
+    }
+    _ => {
+      let n = 1 + rng.below(3);
+      let vs: Vec<String> = (0..n).map(|_| kwv(rng)).collect();
+      m.insert("k2".into(), json!(vs));
+    }
+  }
+  if !rng.chance(1, 6) {
+    m.insert("i1".into(), json!(rng.range(-4, 20)));
+  }
+  match rng.below(4) {
+    0 => {}
+    1 => {
+      m.insert("i2".into(), json!(rng.range(-4, 20)));
+    }
+    _ => {
+      let n = 1 + rng.below(3);
+      let vs: Vec<i64> = (0..n).map(|_| rng.range(-4, 20)).collect();
+      m.insert("i2".into(), json!(vs));
+    }
+  }
+  // dates: epoch milliseconds around 2021/2022, a few before 1970
+  let date = |rng: &mut Rng| -> i64 {
+    if rng.chance(1, 12) {
+      -(rng.range(0, 800) * 86_400_000 + rng.range(0, 23) * 3_600_000)
+    } else if rng.chance(1, 25) {
+      // the 31st of May 2021 (day 150 of the year): no "31st of April" to truncate a quarter to
+      DATE_BASE + 150 * 86_400_000 + rng.range(0, 23) * 3_600_000
+    } else {
+      DATE_BASE + rng.range(0, 500) * 86_400_000 + rng.range(0, 23) * 3_600_000 + rng.range(0, 3) * 900_000
+    }
+  };
+  match rng.below(6) {
+    0 => {}
+    1 => {
+      let vs: Vec<i64> = (0..2).map(|_| date(rng)).collect();
+      m.insert("t1".into(), json!(vs));
+    }
+    _ => {
+      m.insert("t1".into(), json!(date(rng)));
+    }
+  }
+  if !rng.chance(1, 6) {
+    m.insert("f1".into(), json!(quarter(rng, -3, 12)));
+  }
+  match rng.below(4) {
+    0 => {}
+    1 => {
+      m.insert("f2".into(), json!(quarter(rng, -3, 12)));
+    }
+    _ => {
+      let n = 1 + rng.below(3);
+      let vs: Vec<f64> = (0..n).map(|_| quarter(rng, -3, 12)).collect();
+      m.insert("f2".into(), json!(vs));
+    }
+  }
+  Value::Object(m)
+}
+
+// ------------------------------------------------------------------ aggregation generator
+
+fn pick_num_field(rng: &mut Rng) -> &'static str {
+  *rng.pick(&["i1", "i2", "f1", "f2"])
+}
+fn pick_kw_field(rng: &mut Rng) -> &'static str {
+  *rng.pick(&KW_FIELDS)
+}
+
+fn num_missing(rng: &mut Rng, f: &str) -> Value {
+  if rng.chance(1, 4) {
+    if is_i64(f) {
+      json!(rng.range(-2, 9))
+    } else {
+      json!(quarter(rng, -2, 9))
+    }
+  } else {
+    Value::Null
+  }
+}
+
+fn gen_filter(rng: &mut Rng, depth: usize) -> Value {
+  match rng.below(if depth == 0 { 3 } else { 6 }) {
+    0 => json!({"KeywordEq": {"field": pick_kw_field(rng), "value": *rng.pick(&KW_VALUES)}}),
+    1 => {
+      let f = *rng.pick(&["i1", "i2"]);
+      let lo = rng.range(-4, 12);
+      json!({"I64Range": {"field": f, "min": lo, "max": lo + rng.range(0, 12)}})
+    }
+    2 => {
+      let f = *rng.pick(&F64_FIELDS);
+      let lo = quarter(rng, -3, 8);
+      json!({"F64Range": {"field": f, "min": lo, "max": lo + quarter(rng, 0, 8)}})
+    }
+    3 => json!({"And": [gen_filter(rng, depth - 1), gen_filter(rng, depth - 1)]}),
+    4 => json!({"Or": [gen_filter(rng, depth - 1), gen_filter(rng, depth - 1)]}),
+    _ => json!({"Not": gen_filter(rng, depth - 1)}),
+  }
+}
+
+fn with_subs(rng: &mut Rng, mut agg: Value, depth: usize, risky: bool) -> Value {
+  if depth < 3 && rng.chance(3, 5) {
+    let n = 1 + rng.below(2);
+    let mut m = Map::new();
+    for i in 0..n {
+      m.insert(format!("s{i}"), gen_agg(rng, depth + 1, risky));
+    }
+    agg["aggs"] = Value::Object(m);
+  }
+  agg
+}
+
+/// `risky`: parameters known to trigger the per-segment threshold defects may be generated
+pub fn gen_agg(rng: &mut Rng, depth: usize, risky: bool) -> Value {
+  // leaves are more likely deeper in the tree
+  let leaf = depth >= 3 || rng.chance(if depth == 1 { 2 } else { 5 }, 10);
+  if leaf {
+    return match rng.below(7) {
+      0 => {
+        let f = pick_num_field(rng);
+        json!({"type": "stats", "field": f, "missing": num_missing(rng, f)})
+      }
+      1 => {
+        let f = pick_num_field(rng);
+        json!({"type": "extended_stats", "field": f, "missing": num_missing(rng, f)})
+      }
+      2 => {
+        let f = pick_num_field(rng);
+        json!({"type": "value_count", "field": f, "missing": num_missing(rng, f)})
+      }
+      3 => {
+        if rng.chance(1, 2) {
+          let f = pick_kw_field(rng);
+          let m = if rng.chance(1, 4) { json!(*rng.pick(&["a", "zz"])) } else { Value::Null };
+          json!({"type": "cardinality", "field": f, "missing": m})
+        } else {
+          let f = pick_num_field(rng);
+          json!({"type": "cardinality", "field": f, "missing": num_missing(rng, f)})
+        }
+      }
+      4 => {
+        let f = pick_num_field(rng);
+        let mut a = json!({"type": "percentiles", "field": f, "missing": num_missing(rng, f)});
+        if rng.chance(2, 3) {
+          let n = 1 + rng.below(4);
+          let ps: Vec<f64> = (0..n).map(|_| *rng.pick(&[0.0, 1.0, 10.0, 25.0, 50.0, 75.0, 90.0, 99.0, 100.0, 33.5])).collect();
+          a["percents"] = json!(ps);
+        }
+        a
+      }
+      5 => {
+        let f = pick_num_field(rng);
+        let n = 1 + rng.below(3);
+        let ts: Vec<f64> = (0..n).map(|_| quarter(rng, -4, 14)).collect();
+        json!({"type": "percentile_ranks", "field": f, "values": ts, "missing": num_missing(rng, f)})
+      }
+      _ => {
+        // top_hits sorted by numeric fields (ties: index order); `from` > 0 only when risky
+        let n = 1 + rng.below(2);
+        let sort: Vec<Value> = (0..n).map(|_| json!({"field": pick_num_field(rng), "order": *rng.pick(&["asc", "desc"])})).collect();
+        let from = if risky && rng.chance(1, 2) { 1 + rng.below(2) } else { 0 };
+        json!({"type": "top_hits", "size": rng.below(4), "from": from, "sort": sort})
+      }
+    };
+  }
+  match rng.below(if risky { 10 } else { 9 }) {
+    7 => {
+      // date_histogram over the date field
+      let mut a = json!({"type": "date_histogram", "field": "t1"});
+      let calendar = rng.chance(1, 2);
+      if calendar {
+        a["calendar_interval"] = json!(*rng.pick(&["day", "week", "month", "quarter", "year", "1w", "1M", "1q"]));
+      } else {
+        a["fixed_interval"] = json!(*rng.pick(&["1d", "12h", "7d", "36h", "30d", "2w"]));
+      }
+      let bounds = rng.below(5);
+      // calendar interval + offset + bounds: the fill loop of the code drops the offset after its
+      // first step (known finding date_histogram.calendar-offset-fill): only when risky
+      let fill_risk = risky && rng.chance(1, 3);
+      if (rng.chance(1, 3) && !(calendar && bounds <= 1)) || (fill_risk && calendar && bounds <= 1) {
+        a["offset"] = json!(*rng.pick(&["1h", "30m", "0.5d", "6h"]));
+      }
+      let day = |rng: &mut Rng| -> String { rfc3339(DATE_BASE + rng.range(-20, 420) * 86_400_000 + rng.range(0, 23) * 3_600_000) };
+      match bounds {
+        0 => {
+          let (x, y) = (day(rng), day(rng));
+          let (lo, hi) = if x <= y { (x, y) } else { (y, x) };
+          a["extended_bounds"] = json!({"min": lo, "max": hi});
+        }
+        1 => {
+          let (x, y) = (day(rng), day(rng));
+          let (lo, hi) = if x <= y { (x, y) } else { (y, x) };
+          a["hard_bounds"] = json!({"min": lo, "max": hi});
+        }
+        _ => {}
+      }
+      if rng.chance(1, 4) {
+        a["missing"] = if rng.chance(1, 2) { json!(day(rng)) } else { json!(format!("{}", DATE_BASE + rng.range(0, 300) * 86_400_000)) };
+      }
+      if rng.chance(1, 3) {
+        a["min_doc_count"] = json!(rng.below(2));
+      }
+      if risky && rng.chance(1, 3) && !(fill_risk && calendar && bounds <= 1) {
+        a["min_doc_count"] = json!(2);
+      }
+      with_subs(rng, a, depth, risky)
+    }
+    8 => {
+      // date_range over the date field: RFC 3339 or numeric-string bounds
+      let n = 1 + rng.below(3);
+      let mut ranges: Vec<Value> = Vec::new();
+      let mut seen = BTreeSet::new();
+      for i in 0..n {
+        let lo = DATE_BASE + rng.range(-30, 400) * 86_400_000;
+        let hi = lo + rng.range(0, 200) * 86_400_000;
+        let fmt = |rng: &mut Rng, v: i64| -> Value { if rng.chance(1, 2) { json!(rfc3339(v)) } else { json!(format!("{v}")) } };
+        let mut r = match rng.below(5) {
+          0 => json!({"to": fmt(rng, hi)}),
+          1 => json!({"from": fmt(rng, lo)}),
+          _ => json!({"from": fmt(rng, lo), "to": fmt(rng, hi)}),
+        };
+        if rng.chance(1, 2) {
+          r["key"] = json!(format!("r{i}"));
+        }
+        if seen.insert(date_range_key(&r).to_string()) {
+          ranges.push(r);
+        }
+      }
+      let mut a = json!({"type": "date_range", "field": "t1", "keyed": false, "ranges": ranges});
+      if rng.chance(1, 4) {
+        a["missing"] = json!(rfc3339(DATE_BASE + rng.range(0, 300) * 86_400_000));
+      }
+      with_subs(rng, a, depth, risky)
+    }
+    0 | 1 => {
+      let f = pick_kw_field(rng);
+      let mut a = json!({"type": "terms", "field": f});
+      if rng.chance(1, 3) {
+        a["missing"] = json!(*rng.pick(&["none", "a", "zz"]));
+      }
+      if rng.chance(1, 4) {
+        a["min_doc_count"] = json!(rng.below(2)); // 0 or 1: harmless
+      }
+      if risky && rng.chance(1, 3) {
+        if rng.chance(1, 2) {
+          a["min_doc_count"] = json!(2 + rng.below(2));
+        } else {
+          a["size"] = json!(1 + rng.below(3));
+        }
+      }
+      with_subs(rng, a, depth, risky)
+    }
+    2 => {
+      let f = pick_num_field(rng);
+      let n = 1 + rng.below(4);
+      let mut ranges: Vec<Value> = Vec::new();
+      let mut seen = BTreeSet::new();
+      for i in 0..n {
+        let lo = quarter(rng, -4, 10);
+        let hi = lo + quarter(rng, 0, 8);
+        let (from, to) = match rng.below(6) {
+          0 => (Value::Null, json!(hi)),
+          1 => (json!(lo), Value::Null),
+          _ => (json!(lo), json!(hi)),
+        };
+        let mut r = json!({"from": from, "to": to});
+        if rng.chance(1, 2) {
+          r["key"] = json!(format!("r{i}"));
+        }
+        // bucket keys must be distinct (the merge is by key string); duplicates are skipped
+        let ks = range_key(&r).to_string();
+        if seen.insert(ks) {
+          ranges.push(r);
+        }
+      }
+      let a = json!({"type": "range", "field": f, "keyed": rng.chance(1, 4), "ranges": ranges, "missing": num_missing(rng, f)});
+      with_subs(rng, a, depth, risky)
+    }
+    3 => {
+      let f = pick_num_field(rng);
+      let interval = *rng.pick(&[0.5, 1.0, 2.0, 2.5, 5.0, 10.0]);
+      let mut a = json!({"type": "histogram", "field": f, "interval": interval, "missing": num_missing(rng, f)});
+      if rng.chance(1, 3) {
+        a["offset"] = json!(*rng.pick(&[0.25, 0.5, 1.0, -0.5]));
+      }
+      match rng.below(6) {
+        0 => {
+          let lo = quarter(rng, -6, 6);
+          a["extended_bounds"] = json!({"min": lo, "max": lo + quarter(rng, 0, 12)});
+        }
+        1 => {
+          let lo = quarter(rng, -3, 6);
+          a["hard_bounds"] = json!({"min": lo, "max": lo + quarter(rng, 0, 10)});
+        }
+        2 => {
+          let lo = quarter(rng, -3, 3);
+          let hi = lo + quarter(rng, 4, 12);
+          a["hard_bounds"] = json!({"min": lo, "max": hi});
+          a["extended_bounds"] = json!({"min": lo + 1.0, "max": hi - 1.0});
+        }
+        _ => {}
+      }
+      if rng.chance(1, 4) {
+        a["min_doc_count"] = json!(rng.below(2));
+      }
+      if risky && rng.chance(1, 4) {
+        a["min_doc_count"] = json!(2 + rng.below(2));
+      }
+      with_subs(rng, a, depth, risky)
+    }
+    4 => {
+      let a = json!({"type": "filter", "filter": gen_filter(rng, 2)});
+      with_subs(rng, a, depth, risky)
+    }
+    5 | 6 => {
+      let n = 1 + rng.below(2);
+      let mut sources: Vec<Value> = Vec::new();
+      for i in 0..n {
+        if rng.chance(1, 2) {
+          sources.push(json!({"type": "terms", "name": format!("c{i}"), "field": pick_kw_field(rng)}));
+        } else {
+          // histogram sources over i64 columns yield no buckets (known finding): only when risky
+          let f = if risky && rng.chance(1, 3) { *rng.pick(&["i1", "i2"]) } else { *rng.pick(&F64_FIELDS) };
+          sources.push(json!({"type": "histogram", "name": format!("c{i}"), "field": f, "interval": *rng.pick(&[0.5, 1.0, 2.5, 5.0])}));
+        }
+      }
+      let a = json!({"type": "composite", "sources": sources, "size": if rng.chance(1, 3) { 1 + rng.below(4) } else { 50 }});
+      with_subs(rng, a, depth, risky)
+    }
+    _ => {
+      let f = pick_kw_field(rng);
+      let mut a = json!({"type": "rare_terms", "field": f});
+      if rng.chance(1, 2) {
+        a["max_doc_count"] = json!(1 + rng.below(3));
+      }
+      if rng.chance(1, 4) {
+        a["size"] = json!(1 + rng.below(3));
+      }
+      with_subs(rng, a, depth, risky)
+    }
+  }
+}
+
+// ------------------------------------------------------------------ dates (own arithmetic)
+
+pub fn days_from_civil(y: i64, m: i64, d: i64) -> i64 {
+  let y = if m <= 2 { y - 1 } else { y };
+  let era = y.div_euclid(400);
+  let yoe = y - era * 400;
+  let mp = (m + 9) % 12;
+  let doy = (153 * mp + 2) / 5 + d - 1;
+  let doe = yoe * 365 + yoe / 4 - yoe / 100 + doy;
+  era * 146097 + doe - 719468
+}
+
+pub fn civil_from_days(z: i64) -> (i64, i64, i64) {
+  let z = z + 719468;
+  let era = z.div_euclid(146097);
+  let doe = z - era * 146097;
+  let yoe = (doe - doe / 1460 + doe / 36524 - doe / 146096) / 365;
+  let y = yoe + era * 400;
+  let doy = doe - (365 * yoe + yoe / 4 - yoe / 100);
+  let mp = (5 * doy + 2) / 153;
+  let d = doy - (153 * mp + 2) / 5 + 1;
+  let m = if mp < 10 { mp + 3 } else { mp - 9 };
+  (if m <= 2 { y + 1 } else { y }, m, d)
+}
+
+pub fn rfc3339(ms: i64) -> String {
+  let days = ms.div_euclid(86_400_000);
+  let rem = ms.rem_euclid(86_400_000) / 1000;
+  let (y, m, d) = civil_from_days(days);
+  format!("{:04}-{:02}-{:02}T{:02}:{:02}:{:02}Z", y, m, d, rem / 3600, (rem / 60) % 60, rem % 60)
+}
+
+/// `parse_date`: `YYYY-MM-DDTHH:MM:SSZ` or a number, in epoch milliseconds
+pub fn parse_date_str(s: &str) -> Option<f64> {
+  let b = s.as_bytes();
+  if b.len() == 20 && b[4] == b'-' && b[10] == b'T' && b[19] == b'Z' {
+    let n = |r: std::ops::Range<usize>| -> Option<i64> { s.get(r)?.parse().ok() };
+    let days = days_from_civil(n(0..4)?, n(5..7)?, n(8..10)?);
+    return Some(((days * 86_400 + n(11..13)? * 3600 + n(14..16)? * 60 + n(17..19)?) * 1000) as f64);
+  }
+  s.parse().ok()
+}
+
+fn date_loose(v: &Value) -> Option<f64> {
+  match v {
+    Value::String(s) => parse_date_str(s),
+    Value::Number(n) => n.as_f64(),
+    _ => None,
+  }
+}
+
+/// seconds of `1d`, `12h`, `90m`, `0.5d`, …
+fn interval_seconds(spec: &str) -> Option<f64> {
+  let idx = spec.find(|c: char| !(c.is_ascii_digit() || c == '.')).unwrap_or(spec.len());
+  if idx == 0 {
+    return None;
+  }
+  let v: f64 = spec[..idx].parse().ok()?;
+  let mult = match &spec[idx..] {
+    "" | "s" => 1.0,
+    "ms" => 0.001,
+    "m" => 60.0,
+    "h" => 3600.0,
+    "d" => 86_400.0,
+    "w" => 604_800.0,
+    _ => return None,
+  };
+  Some(v * mult)
+}
+
+#[derive(Clone, Copy)]
+enum DateIv {
+  Fixed(i64),
+  Day,
+  Week,
+  Month,
+  Quarter,
+  Year,
+}
+
+fn date_interval(agg: &Value) -> DateIv {
+  if let Some(c) = agg.get("calendar_interval").and_then(|c| c.as_str()) {
+    match c.to_ascii_lowercase().as_str() {
+      "day" | "1d" => return DateIv::Day,
+      "week" | "1w" => return DateIv::Week,
+      "month" | "1m" => return DateIv::Month,
+      "quarter" | "1q" => return DateIv::Quarter,
+      "year" | "1y" => return DateIv::Year,
+      _ => {}
+    }
+  }
+  let secs = agg.get("fixed_interval").and_then(|c| c.as_str()).and_then(interval_seconds).unwrap_or(86_400.0);
+  DateIv::Fixed((secs * 1000.0) as i64)
+}
+
+/// start (in days) of the calendar unit containing day `days`
+fn unit_start(days: i64, iv: DateIv) -> i64 {
+  let (y, m, _) = civil_from_days(days);
+  match iv {
+    DateIv::Day | DateIv::Fixed(_) => days,
+    DateIv::Week => days - (days + 3).rem_euclid(7), // 1970-01-01 was a Thursday
+    DateIv::Month => days_from_civil(y, m, 1),
+    DateIv::Quarter => days_from_civil(y, (m - 1) / 3 * 3 + 1, 1),
+    DateIv::Year => days_from_civil(y, 1, 1),
+  }
+}
+
+/// key of the bucket of value `v`.  Fixed intervals: the next multiple of the step at or above
+/// the value (pinned by the repository's own test
+/// `date_histogram_fixed_interval_respects_offset_and_missing`); calendar: start of the unit.
+fn date_bucket(iv: DateIv, off: i64, v: i64) -> i64 {
+  match iv {
+    DateIv::Fixed(step) => {
+      let x = (v - off) as i128;
+      let st = step as i128;
+      let q = -((-x).div_euclid(st));
+      (q * st) as i64 + off
+    }
+    _ => unit_start((v - off).div_euclid(86_400_000), iv) * 86_400_000 + off,
+  }
+}
+
+/// the bucket after `cur` (aligned like `cur`)
+fn date_next(iv: DateIv, off: i64, cur: i64) -> i64 {
+  match iv {
+    DateIv::Fixed(step) => cur + step,
+    DateIv::Day => cur + 86_400_000,
+    DateIv::Week => cur + 7 * 86_400_000,
+    _ => {
+      let days = (cur - off).div_euclid(86_400_000);
+      let (y, m, _) = civil_from_days(days);
+      let add = match iv {
+        DateIv::Month => 1,
+        DateIv::Quarter => 3,
+        _ => 12,
+      };
+      let (ny, nm) = if m + add > 12 { (y + 1, m + add - 12) } else { (y, m + add) };
+      days_from_civil(ny, nm, 1) * 86_400_000 + off
+    }
+  }
+}
+
+// ------------------------------------------------------------------ oracle
+
+pub fn range_key(r: &Value) -> Value {
+  match r.get("key").and_then(|k| k.as_str()) {
+    Some(k) => json!(k),
+    None => json!({"from": r.get("from").cloned().unwrap_or(Value::Null), "to": r.get("to").cloned().unwrap_or(Value::Null)}),
+  }
+}
+
+fn f64_loose(v: &Value) -> Option<f64> {
+  v.as_f64().or_else(|| v.as_str().and_then(|s| s.parse().ok()))
+}
+
+fn subs_of(agg: &Value) -> Vec<(String, Value)> {
+  agg.get("aggs").and_then(|a| a.as_object()).map(|m| m.iter().map(|(k, v)| (k.clone(), v.clone())).collect()).unwrap_or_default()
+}
+
+fn eval_filter(f: &Value, d: &Doc) -> bool {
+  let (k, b) = match f.as_object().and_then(|m| m.iter().next()) {
+    Some(x) => x,
+    None => return false,
+  };
+  match k.as_str() {
+    "KeywordEq" => {
+      let v = b["value"].as_str().unwrap_or("");
+      d.kws(b["field"].as_str().unwrap_or("")).iter().any(|x| x.eq_ignore_ascii_case(v))
+    }
+    "I64Range" | "F64Range" => {
+      let (lo, hi) = (b["min"].as_f64().unwrap_or(0.0), b["max"].as_f64().unwrap_or(0.0));
+      d.nums(b["field"].as_str().unwrap_or("")).iter().any(|x| *x >= lo && *x <= hi)
+    }
+    "And" => b.as_array().map(|a| a.iter().all(|x| eval_filter(x, d))).unwrap_or(false),
+    "Or" => b.as_array().map(|a| a.iter().any(|x| eval_filter(x, d))).unwrap_or(false),
+    "Not" => !eval_filter(b, d),
+    _ => false,
+  }
+}
+
+fn oracle_subs(agg: &Value, docs: &[&Doc]) -> Value {
+  let mut m = Map::new();
+  for (name, sub) in subs_of(agg) {
+    m.insert(name, oracle(&sub, docs));
+  }
+  Value::Object(m)
+}
+
+fn bucket_view(key: Value, agg: &Value, docs: &[&Doc]) -> Value {
+  // a histogram bucket no document fell into (it exists because of the bounds) has no child
+  // aggregations in the response; range buckets always carry theirs
+  let eager = matches!(agg["type"].as_str(), Some("range") | Some("date_range"));
+  let subs = if docs.is_empty() && !eager { json!({}) } else { oracle_subs(agg, docs) };
+  json!({"key": key, "count": docs.len(), "subs": subs})
+}
+
+fn num(x: f64) -> Value {
+  json!(x)
+}
+
+/// composite key order: strings bytewise, numbers numerically
+fn cmp_part(a: &Value, b: &Value) -> std::cmp::Ordering {
+  match (a, b) {
+    (Value::String(x), Value::String(y)) => x.as_bytes().cmp(y.as_bytes()),
+    (Value::Number(x), Value::Number(y)) => x.as_f64().unwrap().total_cmp(&y.as_f64().unwrap()),
+    (Value::String(_), _) => std::cmp::Ordering::Less,
+    (_, Value::String(_)) => std::cmp::Ordering::Greater,
+    _ => std::cmp::Ordering::Equal,
+  }
+}
+pub fn cmp_parts(a: &[Value], b: &[Value]) -> std::cmp::Ordering {
+  for (x, y) in a.iter().zip(b.iter()) {
+    let o = cmp_part(x, y);
+    if o != std::cmp::Ordering::Equal {
+      return o;
+    }
+  }
+  a.len().cmp(&b.len())
+}
+
+/// all composite buckets of `docs` in key order: (parts, docs of the bucket)
+pub fn composite_buckets<'a>(agg: &Value, docs: &[&'a Doc]) -> Vec<(Vec<Value>, Vec<&'a Doc>)> {
+  let sources = agg["sources"].as_array().cloned().unwrap_or_default();
+  let mut out: Vec<(Vec<Value>, Vec<&Doc>)> = Vec::new();
+  for d in docs {
+    let mut per: Vec<Vec<Value>> = Vec::new();
+    for s in &sources {
+      let f = s["field"].as_str().unwrap_or("");
+      let vals: Vec<Value> = if s["type"] == "terms" {
+        d.kws(f).iter().map(|x| json!(x)).collect()
+      } else {
+        let iv = s["interval"].as_f64().unwrap_or(1.0);
+        d.nums(f).iter().map(|v| num((v / iv).floor() * iv)).collect()
+      };
+      per.push(vals);
+    }
+    if per.iter().any(|v| v.is_empty()) {
+      continue;
+    }
+    let mut combos: Vec<Vec<Value>> = vec![vec![]];
+    for vals in &per {
+      let mut next = Vec::new();
+      for c in &combos {
+        for v in vals {
+          let mut c2 = c.clone();
+          c2.push(v.clone());
+          next.push(c2);
+        }
+      }
+      combos = next;
+    }
+    let mut seen: Vec<Vec<Value>> = Vec::new();
+    for c in combos {
+      if seen.iter().any(|s| cmp_parts(s, &c) == std::cmp::Ordering::Equal) {
+        continue;
+      }
+      seen.push(c.clone());
+      match out.iter_mut().find(|(k, _)| cmp_parts(k, &c) == std::cmp::Ordering::Equal) {
+        Some((_, ds)) => ds.push(*d),
+        None => out.push((c, vec![*d])),
+      }
+    }
+  }
+  out.sort_by(|a, b| cmp_parts(&a.0, &b.0));
+  out
+}
+
+pub fn composite_key_json(agg: &Value, parts: &[Value]) -> Value {
+  let mut m = Map::new();
+  for (s, p) in agg["sources"].as_array().cloned().unwrap_or_default().iter().zip(parts.iter()) {
+    m.insert(s["name"].as_str().unwrap_or("").to_string(), p.clone());
+  }
+  Value::Object(m)
+}
+
+pub fn composite_parts_of_key(agg: &Value, key: &Value) -> Option<Vec<Value>> {
+  let mut out = Vec::new();
+  for s in agg["sources"].as_array()? {
+    out.push(key.get(s["name"].as_str()?)?.clone());
+  }
+  Some(out)
+}
+
+/// Independent computation of the response over all matched live documents; every limit and
+/// threshold is applied once, to the global counts.  Returns the canonical view.
+pub fn oracle(agg: &Value, docs: &[&Doc]) -> Value {
+  let ty = agg["type"].as_str().unwrap_or("");
+  let field = agg["field"].as_str().unwrap_or("");
+  let missing_num = agg.get("missing").and_then(f64_loose);
+  match ty {
+    "stats" | "extended_stats" => {
+      let vals: Vec<f64> = docs.iter().flat_map(|d| d.nums_or(field, missing_num)).collect();
+      let n = vals.len();
+      if n == 0 {
+        let mut v = json!({"k": ty, "count": 0, "min": 0.0, "max": 0.0, "sum": 0.0, "avg": 0.0});
+        if ty == "extended_stats" {
+          v["variance"] = num(0.0);
+          v["std_deviation"] = num(0.0);
+        }
+        return v;
+      }
+      let sum: f64 = vals.iter().sum();
+      let mean = sum / n as f64;
+      let mn = vals.iter().cloned().fold(f64::INFINITY, f64::min);
+      let mx = vals.iter().cloned().fold(f64::NEG_INFINITY, f64::max);
+      let mut v = json!({"k": ty, "count": n, "min": mn, "max": mx, "sum": sum, "avg": mean});
+      if ty == "extended_stats" {
+        let var: f64 = vals.iter().map(|x| (x - mean) * (x - mean)).sum::<f64>() / n as f64;
+        v["variance"] = num(var);
+        v["std_deviation"] = num(var.sqrt());
+      }
+      v
+    }
+    "value_count" => {
+      let n: usize = docs.iter().map(|d| d.nums_or(field, missing_num).len()).sum();
+      json!({"k": "value", "value": n})
+    }
+    "cardinality" => {
+      let mut set: BTreeSet<String> = BTreeSet::new();
+      for d in docs {
+        if is_kw(field) {
+          let vs = d.kws(field);
+          if vs.is_empty() {
+            if let Some(m) = agg.get("missing").and_then(|m| m.as_str()) {
+              set.insert(m.to_string());
+            }
+          } else {
+            for v in vs {
+              set.insert(v.clone());
+            }
+          }
+        } else {
+          let m = if is_i64(field) { agg.get("missing").and_then(|m| m.as_i64()).map(|x| x as f64) } else { missing_num };
+          for v in d.nums_or(field, m) {
+            set.insert(format!("{:?}", v.to_bits()));
+          }
+        }
+      }
+      json!({"k": "value", "value": set.len()})
+    }
+    "percentiles" => {
+      let mut vals: Vec<f64> = docs.iter().flat_map(|d| d.nums_or(field, missing_num)).collect();
+      vals.sort_by(|a, b| a.total_cmp(b));
+      let ps: Vec<f64> = match agg.get("percents").and_then(|p| p.as_array()) {
+        Some(a) => a.iter().filter_map(|x| x.as_f64()).collect(),
+        None => vec![1.0, 5.0, 25.0, 50.0, 75.0, 95.0, 99.0],
+      };
+      let mut m = Map::new();
+      for p in ps {
+        let v = if vals.is_empty() {
+          0.0
+        } else {
+          // linear interpolation between closest ranks
+          let pos = p.clamp(0.0, 100.0) / 100.0 * (vals.len() - 1) as f64;
+          let lo = pos.floor() as usize;
+          let hi = pos.ceil() as usize;
+          if lo == hi {
+            vals[lo]
+          } else {
+            vals[lo] + (vals[hi] - vals[lo]) * (pos - lo as f64)
+          }
+        };
+        m.insert(format!("{p}"), num(v));
+      }
+      json!({"k": "table", "values": m})
+    }
+    "percentile_ranks" => {
+      let vals: Vec<f64> = docs.iter().flat_map(|d| d.nums_or(field, missing_num)).collect();
+      let mut m = Map::new();
+      for t in agg["values"].as_array().cloned().unwrap_or_default() {
+        let t = t.as_f64().unwrap_or(0.0);
+        let v = if vals.is_empty() { 0.0 } else { vals.iter().filter(|x| **x <= t).count() as f64 / vals.len() as f64 * 100.0 };
+        m.insert(format!("{t}"), num(v));
+      }
+      json!({"k": "table", "values": m})
+    }
+    "terms" | "rare_terms" => {
+      let missing = if ty == "terms" { agg.get("missing").and_then(|m| m.as_str()) } else { None };
+      let mut keys: BTreeMap<String, Vec<&Doc>> = BTreeMap::new();
+      for d in docs {
+        let vs = d.kws(field);
+        let mut mine: BTreeSet<String> = vs.iter().cloned().collect();
+        if vs.is_empty() {
+          if let Some(m) = missing {
+            mine.insert(m.to_string());
+          }
+        }
+        for k in mine {
+          keys.entry(k).or_default().push(*d);
+        }
+      }
+      let mut bs: Vec<(String, Vec<&Doc>)> = keys.into_iter().collect();
+      if ty == "terms" {
+        let mdc = agg.get("min_doc_count").and_then(|m| m.as_u64()).unwrap_or(1) as usize;
+        bs.retain(|(_, ds)| ds.len() >= mdc);
+        bs.sort_by(|a, b| b.1.len().cmp(&a.1.len()).then_with(|| a.0.as_bytes().cmp(b.0.as_bytes())));
+      } else {
+        let mx = agg.get("max_doc_count").and_then(|m| m.as_u64()).unwrap_or(1) as usize;
+        bs.retain(|(_, ds)| !ds.is_empty() && ds.len() <= mx);
+        bs.sort_by(|a, b| a.1.len().cmp(&b.1.len()).then_with(|| a.0.as_bytes().cmp(b.0.as_bytes())));
+      }
+      if let Some(sz) = agg.get("size").and_then(|s| s.as_u64()) {
+        bs.truncate(sz as usize);
+      }
+      let buckets: Vec<Value> = bs.iter().map(|(k, ds)| bucket_view(json!(k), agg, ds)).collect();
+      json!({"k": ty, "buckets": buckets})
+    }
+    "top_hits" => {
+      let sort = agg["sort"].as_array().cloned().unwrap_or_default();
+      let key = |d: &Doc| -> Vec<Option<f64>> {
+        sort
+          .iter()
+          .map(|sp| {
+            let vs = d.nums(sp["field"].as_str().unwrap_or(""));
+            if vs.is_empty() {
+              None
+            } else if sp["order"] == "desc" {
+              Some(vs.iter().cloned().fold(f64::NEG_INFINITY, f64::max))
+            } else {
+              Some(vs.iter().cloned().fold(f64::INFINITY, f64::min))
+            }
+          })
+          .collect()
+      };
+      // `docs` is in index order; a stable sort keeps it for ties
+      let mut ranked: Vec<(Vec<Option<f64>>, &Doc)> = docs.iter().map(|d| (key(d), *d)).collect();
+      ranked.sort_by(|a, b| {
+        for (i, sp) in sort.iter().enumerate() {
+          let o = match (a.0[i], b.0[i]) {
+            (None, None) => std::cmp::Ordering::Equal,
+            (None, _) => std::cmp::Ordering::Greater,
+            (_, None) => std::cmp::Ordering::Less,
+            (Some(x), Some(y)) => {
+              if sp["order"] == "desc" {
+                y.total_cmp(&x)
+              } else {
+                x.total_cmp(&y)
+              }
+            }
+          };
+          if o != std::cmp::Ordering::Equal {
+            return o;
+          }
+        }
+        std::cmp::Ordering::Equal
+      });
+      let from = agg.get("from").and_then(|f| f.as_u64()).unwrap_or(0) as usize;
+      let size = agg["size"].as_u64().unwrap_or(0) as usize;
+      let hits: Vec<String> = ranked.iter().skip(from).take(size).map(|(_, d)| d.id.clone()).collect();
+      json!({"k": "top_hits", "total": docs.len(), "hits": hits})
+    }
+    "date_histogram" => {
+      let iv = date_interval(agg);
+      let off = agg.get("offset").and_then(|o| o.as_str()).and_then(interval_seconds).map(|s| (s * 1000.0) as i64).unwrap_or(0);
+      let bounds = |k: &str| -> Option<(i64, i64)> {
+        let b = agg.get(k).filter(|b| !b.is_null())?;
+        Some((parse_date_str(b["min"].as_str()?)? as i64, parse_date_str(b["max"].as_str()?)? as i64))
+      };
+      let ext = bounds("extended_bounds");
+      let hard = bounds("hard_bounds");
+      let missing = agg.get("missing").and_then(|m| m.as_str()).and_then(parse_date_str).map(|v| v as i64);
+      let mdc = agg.get("min_doc_count").and_then(|m| m.as_u64()).unwrap_or(0) as usize;
+      let mut map: BTreeMap<i64, Vec<&Doc>> = BTreeMap::new();
+      if let Some((lo, hi)) = ext.or(hard) {
+        let (mut a, mut b) = (date_bucket(iv, off, lo), date_bucket(iv, off, hi));
+        if a > b {
+          std::mem::swap(&mut a, &mut b);
+        }
+        let mut cur = a;
+        while cur <= b {
+          map.entry(cur).or_default();
+          cur = date_next(iv, off, cur);
+        }
+      }
+      for d in docs {
+        let mut mine = BTreeSet::new();
+        for v in d.nums_or(field, missing.map(|m| m as f64)) {
+          let v = v as i64;
+          if let Some((lo, hi)) = hard {
+            if v < lo || v > hi {
+              continue;
+            }
+          }
+          mine.insert(date_bucket(iv, off, v));
+        }
+        for b in mine {
+          map.entry(b).or_default().push(*d);
+        }
+      }
+      let buckets: Vec<Value> = map.iter().filter(|(_, ds)| ds.len() >= mdc).map(|(b, ds)| bucket_view(json!(*b), agg, ds)).collect();
+      json!({"k": ty, "buckets": buckets})
+    }
+    "range" | "date_range" => {
+      let missing_num = if ty == "date_range" { agg.get("missing").and_then(date_loose) } else { missing_num };
+      let mut buckets = Vec::new();
+      for r in agg["ranges"].as_array().cloned().unwrap_or_default() {
+        let (from, to) = if ty == "date_range" {
+          (r.get("from").and_then(date_loose), r.get("to").and_then(date_loose))
+        } else {
+          (r.get("from").and_then(f64_loose), r.get("to").and_then(f64_loose))
+        };
+        let ds: Vec<&Doc> = docs
+          .iter()
+          .filter(|d| d.nums_or(field, missing_num).iter().any(|v| from.map(|f| *v >= f).unwrap_or(true) && to.map(|t| *v <= t).unwrap_or(true)))
+          .cloned()
+          .collect();
+        let key = if ty == "range" { range_key(&r) } else { date_range_key(&r) };
+        buckets.push(bucket_view(key, agg, &ds));
+      }
+      json!({"k": ty, "buckets": buckets})
+    }
+    "histogram" => {
+      let interval = agg["interval"].as_f64().unwrap_or(1.0);
+      let offset = agg.get("offset").and_then(|o| o.as_f64()).unwrap_or(0.0);
+      let bounds = |k: &str| agg.get(k).filter(|b| !b.is_null()).map(|b| (b["min"].as_f64().unwrap_or(0.0), b["max"].as_f64().unwrap_or(0.0)));
+      let ext = bounds("extended_bounds");
+      let hard = bounds("hard_bounds");
+      let mdc = agg.get("min_doc_count").and_then(|m| m.as_u64()).unwrap_or(if ext.is_some() || hard.is_some() { 0 } else { 1 }) as usize;
+      let id = |v: f64| ((v - offset) / interval).floor() as i64;
+      let mut map: BTreeMap<i64, Vec<&Doc>> = BTreeMap::new();
+      if let Some((lo, hi)) = ext.or(hard) {
+        let mut b = id(lo);
+        while b <= id(hi) {
+          map.entry(b).or_default();
+          b += 1;
+        }
+      }
+      for d in docs {
+        let mut mine = BTreeSet::new();
+        for v in d.nums_or(field, missing_num) {
+          if let Some((lo, hi)) = hard {
+            if v < lo || v > hi {
+              continue;
+            }
+          }
+          mine.insert(id(v));
+        }
+        for b in mine {
+          map.entry(b).or_default().push(*d);
+        }
+      }
+      let buckets: Vec<Value> = map.iter().filter(|(_, ds)| ds.len() >= mdc).map(|(b, ds)| bucket_view(num(*b as f64 * interval + offset), agg, ds)).collect();
+      json!({"k": ty, "buckets": buckets})
+    }
+    "filter" => {
+      let ds: Vec<&Doc> = docs.iter().filter(|d| eval_filter(&agg["filter"], d)).cloned().collect();
+      // the filter bucket always carries its child aggregations
+      json!({"k": "filter", "buckets": [{"key": Value::Null, "count": ds.len(), "subs": oracle_subs(agg, &ds)}]})
+    }
+    "composite" => {
+      let all = composite_buckets(agg, docs);
+      let after = agg.get("after").filter(|a| !a.is_null()).and_then(|a| composite_parts_of_key(agg, a));
+      let rest: Vec<&(Vec<Value>, Vec<&Doc>)> = all.iter().filter(|(k, _)| after.as_ref().map(|a| cmp_parts(k, a) == std::cmp::Ordering::Greater).unwrap_or(true)).collect();
+      let size = agg["size"].as_u64().unwrap_or(10) as usize;
+      let page: Vec<&(Vec<Value>, Vec<&Doc>)> = rest.iter().take(size).cloned().collect();
+      let after_key = if rest.len() > size { page.last().map(|(k, _)| composite_key_json(agg, k)).unwrap_or(Value::Null) } else { Value::Null };
+      let buckets: Vec<Value> = page.iter().map(|(k, ds)| bucket_view(composite_key_json(agg, k), agg, ds)).collect();
+      json!({"k": ty, "buckets": buckets, "after_key": after_key})
+    }
+    _ => json!({"k": "unsupported", "type": ty}),
+  }
+}
+
+fn date_range_key(r: &Value) -> Value {
+  // DateRangeCollector builds RangeBound{key, from: parse_date(from), to: parse_date(to)}
+  match r.get("key").and_then(|k| k.as_str()) {
+    Some(k) => json!(k),
+    None => json!({"from": r.get("from").and_then(date_loose), "to": r.get("to").and_then(date_loose)}),
+  }
+}
+
+// ------------------------------------------------------------------ canonical views
+
+/// implementation response (`AggregationResponse` serde JSON) → canonical view
+pub fn canon_impl(resp: &Value) -> Value {
+  let ty = resp["type"].as_str().unwrap_or("");
+  let subs_of_resp = |b: &Value| -> Value {
+    let mut m = Map::new();
+    if let Some(a) = b.get("aggregations").and_then(|a| a.as_object()) {
+      for (k, v) in a {
+        m.insert(k.clone(), canon_impl(v));
+      }
+    }
+    Value::Object(m)
+  };
+  match ty {
+    "stats" => json!({"k": ty, "count": resp["count"], "min": resp["min"], "max": resp["max"], "sum": resp["sum"], "avg": resp["avg"]}),
+    "extended_stats" => json!({"k": ty, "count": resp["count"], "min": resp["min"], "max": resp["max"], "sum": resp["sum"], "avg": resp["avg"],
+      "variance": resp["variance"], "std_deviation": resp["std_deviation"]}),
+    "value_count" | "cardinality" => json!({"k": "value", "value": resp["value"]}),
+    "percentiles" | "percentile_ranks" => json!({"k": "table", "values": resp["values"]}),
+    "top_hits" => {
+      let hits: Vec<Value> = resp["hits"].as_array().cloned().unwrap_or_default().iter().map(|h| h["doc_id"].clone()).collect();
+      json!({"k": "top_hits", "total": resp["total"], "hits": hits})
+    }
+    "filter" => json!({"k": "filter", "buckets": [{"key": Value::Null, "count": resp["doc_count"], "subs": subs_of_resp(resp)}]}),
+    "terms" | "rare_terms" | "range" | "date_range" | "histogram" | "date_histogram" | "composite" => {
+      let buckets: Vec<Value> = resp["buckets"]
+        .as_array()
+        .cloned()
+        .unwrap_or_default()
+        .iter()
+        .map(|b| json!({"key": b["key"], "count": b["doc_count"], "subs": subs_of_resp(b)}))
+        .collect();
+      let mut v = json!({"k": ty, "buckets": buckets});
+      if ty == "composite" {
+        v["after_key"] = resp.get("after_key").cloned().unwrap_or(Value::Null);
+      }
+      v
+    }
+    _ => json!({"k": "unsupported", "type": ty}),
+  }
+}
+
+fn rat(v: &Value) -> f64 {
+  let s = v.as_str().unwrap_or("0/1");
+  let mut it = s.split('/');
+  let n: f64 = it.next().unwrap_or("0").parse().unwrap_or(f64::NAN);
+  let d: f64 = it.next().unwrap_or("1").parse().unwrap_or(1.0);
+  n / d
+}
+
+/// model node (`nodeToJson`) → canonical view, using the request to name children and keys
+pub fn canon_model(node: &Value, agg: &Value, rank_ids: &[String]) -> Value {
+  let ty = agg["type"].as_str().unwrap_or("");
+  match node["t"].as_str().unwrap_or("") {
+    "stats" => {
+      let mut v = json!({"k": ty, "count": node["count"], "min": rat(&node["min"]), "max": rat(&node["max"]), "sum": rat(&node["sum"]), "avg": rat(&node["avg"])});
+      if ty == "extended_stats" {
+        let var = rat(&node["variance"]);
+        v["variance"] = num(var);
+        v["std_deviation"] = num(var.sqrt());
+      }
+      v
+    }
+    "count" => json!({"k": "value", "value": node["n"]}),
+    "hits" => {
+      let hits: Vec<Value> = node["hits"].as_array().cloned().unwrap_or_default().iter().map(|o| json!(rank_ids.get(o.as_u64().unwrap_or(0) as usize).cloned().unwrap_or_default())).collect();
+      json!({"k": "top_hits", "total": node["total"], "hits": hits})
+    }
+    "table" => {
+      let mut m = Map::new();
+      for r in node["rows"].as_array().cloned().unwrap_or_default() {
+        m.insert(format!("{}", rat(&r[0])), num(rat(&r[1])));
+      }
+      json!({"k": "table", "values": m})
+    }
+    "buckets" => {
+      let names: Vec<(String, Value)> = subs_of(agg); // serde_json maps are sorted by name
+      let interval = agg.get("interval").and_then(|x| x.as_f64()).unwrap_or(1.0);
+      let offset = agg.get("offset").and_then(|x| x.as_f64()).unwrap_or(0.0);
+      let ranges = agg.get("ranges").and_then(|r| r.as_array()).cloned().unwrap_or_default();
+      let key_json = |k: &Value| -> Value {
+        if let Some(s) = k.get("s") {
+          return s.clone();
+        }
+        if let Some(i) = k.get("i").and_then(|i| i.as_i64()) {
+          return match ty {
+            "histogram" => num(i as f64 * interval + offset),
+            "range" => ranges.get(i as usize).map(range_key).unwrap_or(Value::Null),
+            "date_range" => ranges.get(i as usize).map(date_range_key).unwrap_or(Value::Null),
+            _ => json!(i),
+          };
+        }
+        if let Some(ps) = k.get("p").and_then(|p| p.as_array()) {
+          let parts: Vec<Value> = ps.iter().map(|p| if let Some(s) = p.get("s") { s.clone() } else { num(rat(&p["q"])) }).collect();
+          return composite_key_json(agg, &parts);
+        }
+        Value::Null
+      };
+      let buckets: Vec<Value> = node["buckets"]
+        .as_array()
+        .cloned()
+        .unwrap_or_default()
+        .iter()
+        .map(|b| {
+          let mut m = Map::new();
+          for (child, (name, sub)) in b["subs"].as_array().cloned().unwrap_or_default().iter().zip(names.iter()) {
+            m.insert(name.clone(), canon_model(child, sub, rank_ids));
+          }
+          json!({"key": key_json(&b["key"]), "count": b["count"], "subs": m})
+        })
+        .collect();
+      let k = if ty == "filter" { "filter" } else { ty };
+      let mut v = json!({"k": k, "buckets": buckets});
+      if ty == "composite" {
+        v["after_key"] = if node["after"].is_null() { Value::Null } else { key_json(&node["after"]) };
+      }
+      v
+    }
+    other => json!({"k": "unsupported", "t": other}),
+  }
+}
+
+/// sort key of a document for a top_hits request
+fn hit_key(agg: &Value, d: &Doc) -> Value {
+  let ks: Vec<Value> = agg["sort"]
+    .as_array()
+    .cloned()
+    .unwrap_or_default()
+    .iter()
+    .map(|sp| {
+      let vs = d.nums(sp["field"].as_str().unwrap_or(""));
+      if vs.is_empty() {
+        Value::Null
+      } else if sp["order"] == "desc" {
+        json!(vs.iter().cloned().fold(f64::NEG_INFINITY, f64::max))
+      } else {
+        json!(vs.iter().cloned().fold(f64::INFINITY, f64::min))
+      }
+    })
+    .collect();
+  json!(ks)
+}
+
+/// The property does not fix the order of hits with equal sort keys (the code breaks ties by
+/// segment and position in the segment, which depends on the layout): replace the hit ids of
+/// every top_hits view by their sort keys.  Duplicate or unknown ids are kept as they are, so
+/// that they still show up as a difference.
+pub fn hits_modulo_ties(view: &mut Value, agg: &Value, by_id: &BTreeMap<String, &Doc>) {
+  if agg["type"] == "top_hits" {
+    let ids: Vec<String> = view["hits"].as_array().cloned().unwrap_or_default().iter().map(|h| h.as_str().unwrap_or("").to_string()).collect();
+    let distinct: BTreeSet<&String> = ids.iter().collect();
+    if distinct.len() == ids.len() && ids.iter().all(|i| by_id.contains_key(i)) {
+      let keys: Vec<Value> = ids.iter().map(|i| hit_key(agg, by_id[i])).collect();
+      view["hits"] = json!(keys);
+    }
+    return;
+  }
+  let subs = subs_of(agg);
+  if subs.is_empty() {
+    return;
+  }
+  if let Some(bs) = view.get_mut("buckets").and_then(|b| b.as_array_mut()) {
+    for b in bs.iter_mut() {
+      for (name, sub) in &subs {
+        if let Some(v) = b["subs"].get_mut(name) {
+          hits_modulo_ties(v, sub, by_id);
+        }
+      }
+    }
+  }
+}
+
+fn values_close(a: &Value, b: &Value) -> bool {
+  match (a, b) {
+    (Value::Number(x), Value::Number(y)) => {
+      // relative 1e-9, with an absolute floor of 1e-9 (field values are multiples of 0.25, so a
+      // result like 5.6e-17 from an interpolation that cancels to zero is a zero)
+      let (p, q) = (x.as_f64().unwrap_or(f64::NAN), y.as_f64().unwrap_or(f64::NAN));
+      idx::close(p, q, REL) || (p - q).abs() <= REL
+    }
+    (Value::Array(x), Value::Array(y)) => x.len() == y.len() && x.iter().zip(y.iter()).all(|(p, q)| values_close(p, q)),
+    (Value::Object(x), Value::Object(y)) => x.len() == y.len() && x.iter().all(|(k, v)| y.get(k).map(|w| values_close(v, w)).unwrap_or(false)),
+    _ => a == b,
+  }
+}
+
+#[derive(Debug, Clone)]
+pub struct Diff {
+  /// names of the aggregations from the root to the blamed node
+  pub path: Vec<String>,
+  pub what: String,
+}
+
+/// first difference between two views of the aggregation `name`; the blamed node is the
+/// shallowest one whose own data (keys, counts, metric values) differ
+pub fn diff_view(name: &str, a: &Value, b: &Value) -> Option<Diff> {
+  let here = |what: String| Some(Diff { path: vec![name.to_string()], what });
+  if a["k"] != b["k"] {
+    return here(format!("kind {} vs {}", a["k"], b["k"]));
+  }
+  if let (Some(ba), Some(bb)) = (a.get("buckets").and_then(|x| x.as_array()), b.get("buckets").and_then(|x| x.as_array())) {
+    let shape = |bs: &Vec<Value>| -> Vec<Value> { bs.iter().map(|x| json!([x["key"], x["count"]])).collect() };
+    let (sa, sb) = (shape(ba), shape(bb));
+    if !values_close(&json!(sa), &json!(sb)) {
+      return here(format!("buckets {} vs {}", json!(sa), json!(sb)));
+    }
+    if !values_close(a.get("after_key").unwrap_or(&Value::Null), b.get("after_key").unwrap_or(&Value::Null)) {
+      return here(format!("after_key {} vs {}", a["after_key"], b["after_key"]));
+    }
+    for (x, y) in ba.iter().zip(bb.iter()) {
+      let (mx, my) = (x["subs"].as_object().cloned().unwrap_or_default(), y["subs"].as_object().cloned().unwrap_or_default());
+      let kx: Vec<&String> = mx.keys().collect();
+      let ky: Vec<&String> = my.keys().collect();
+      if kx != ky {
+        return here(format!("children of bucket {}: {:?} vs {:?}", x["key"], kx, ky));
+      }
+      for (n, vx) in mx.iter() {
+        if let Some(mut d) = diff_view(n, vx, &my[n]) {
+          d.path.insert(0, name.to_string());
+          return Some(d);
+        }
+      }
+    }
+    return None;
+  }
+  if !values_close(a, b) {
+    return here(format!("{} vs {}", a, b));
+  }
+  None
+}
+
+// ------------------------------------------------------------------ request-tree surgery
+
+fn node_at<'a>(aggs: &'a Value, path: &[String]) -> Option<&'a Value> {
+  let mut cur = aggs.get(&path[0])?;
+  for p in &path[1..] {
+    cur = cur.get("aggs")?.get(p)?;
+  }
+  Some(cur)
+}
+
+fn node_at_mut<'a>(aggs: &'a mut Value, path: &[String]) -> Option<&'a mut Value> {
+  let mut cur = aggs.get_mut(&path[0])?;
+  for p in &path[1..] {
+    cur = cur.get_mut("aggs")?.get_mut(p)?;
+  }
+  Some(cur)
+}
+
+fn remove_at(aggs: &mut Value, path: &[String]) {
+  if path.len() == 1 {
+    if let Some(m) = aggs.as_object_mut() {
+      m.remove(&path[0]);
+    }
+    return;
+  }
+  if let Some(parent) = node_at_mut(aggs, &path[..path.len() - 1]) {
+    if let Some(m) = parent.get_mut("aggs").and_then(|a| a.as_object_mut()) {
+      m.remove(&path[path.len() - 1]);
+    }
+  }
+}
+
+// ------------------------------------------------------------------ running the implementation
+
+pub struct Built {
+  pub _dir: tempfile::TempDir,
+  pub index: searchlite_core::api::Index,
+  /// live corpus documents per segment, in segment order (indices into the corpus)
+  pub segs: Vec<Vec<usize>>,
+}
+
+/// build one layout: `commits` is a list of commits, each a list of items
+/// `{"doc": i}` | `{"ghost": <doc json>}` (deleted by a later commit) |
+/// `{"stale": <doc json with the _id of a corpus doc added by a later commit>}`
+pub fn build_layout(docs: &[Value], layout: &Value) -> Result<Built, String> {
+  let dir = scratch();
+  let index = idx::create(dir.path(), &schema_json(), true)?;
+  let commits = layout["commits"].as_array().cloned().unwrap_or_default();
+  let mut segs = Vec::new();
+  let mut pending_delete: Vec<String> = Vec::new();
+  for c in &commits {
+    let mut w = index.writer().map_err(|e| e.to_string())?;
+    if !pending_delete.is_empty() {
+      w.delete_documents(&pending_delete).map_err(|e| format!("delete: {e}"))?;
+      pending_delete.clear();
+    }
+    let mut live = Vec::new();
+    for item in c.as_array().cloned().unwrap_or_default() {
+      if let Some(i) = item.get("doc").and_then(|i| i.as_u64()) {
+        w.add_document(&idx::doc(&docs[i as usize])).map_err(|e| format!("add: {e}"))?;
+        live.push(i as usize);
+      } else if let Some(g) = item.get("ghost") {
+        w.add_document(&idx::doc(g)).map_err(|e| format!("add ghost: {e}"))?;
+        pending_delete.push(g["_id"].as_str().unwrap_or("").to_string());
+      } else if let Some(g) = item.get("stale") {
+        w.add_document(&idx::doc(g)).map_err(|e| format!("add stale: {e}"))?;
+      }
+    }
+    w.commit().map_err(|e| format!("commit: {e}"))?;
+    // the writer collects a commit's documents in a BTreeMap keyed by id: within a segment the
+    // document order (the tie-break of top_hits) is the byte order of the ids
+    live.sort_by(|a, b| docs[*a]["_id"].as_str().unwrap_or("").as_bytes().cmp(docs[*b]["_id"].as_str().unwrap_or("").as_bytes()));
+    segs.push(live);
+  }
+  if !pending_delete.is_empty() {
+    idx::delete_commit(&index, &pending_delete)?;
+  }
+  Ok(Built { _dir: dir, index, segs })
+}
+
+pub fn gen_layouts(rng: &mut Rng, docs: &[Value], n_layouts: usize) -> Vec<Value> {
+  let n = docs.len();
+  let mut layouts = Vec::new();
+  for li in 0..n_layouts {
+    // cut points
+    let cuts: Vec<usize> = match li {
+      0 => vec![],                 // one segment
+      1 => (1..n).collect(),       // one document per segment
+      _ => {
+        let k = 1 + rng.below(n.min(5).max(1));
+        let mut c: BTreeSet<usize> = BTreeSet::new();
+        for _ in 0..k {
+          if n > 1 {
+            c.insert(1 + rng.below(n - 1));
+          }
+        }
+        c.into_iter().collect()
+      }
+    };
+    let mut commits: Vec<Vec<Value>> = vec![vec![]];
+    for i in 0..n {
+      if cuts.contains(&i) {
+        commits.push(vec![]);
+      }
+      commits.last_mut().unwrap().push(json!({"doc": i}));
+    }
+    // dead documents: never in the one-segment layout's way of checking the plain path
+    if li >= 2 && rng.chance(1, 2) {
+      let ncommits = commits.len();
+      for g in 0..(1 + rng.below(2)) {
+        let c = rng.below(ncommits);
+        if c + 1 < ncommits && rng.chance(1, 2) {
+          // stale version of a document that a later commit adds again
+          let later: Vec<usize> = commits[c + 1..].iter().flatten().filter_map(|x| x.get("doc").and_then(|d| d.as_u64()).map(|d| d as usize)).collect();
+          let target = later[rng.below(later.len())];
+          let id = docs[target]["_id"].as_str().unwrap_or("").to_string();
+          let already = commits[c].iter().any(|x| x.get("stale").map(|s| s["_id"] == json!(id)).unwrap_or(false));
+          if !already {
+            let stale = gen_doc(rng, id);
+            let pos = rng.below(commits[c].len() + 1);
+            commits[c].insert(pos, json!({"stale": stale}));
+          }
+        } else {
+          let ghost = gen_doc(rng, format!("g{li}_{g}"));
+          let pos = rng.below(commits[c].len() + 1);
+          commits[c].insert(pos, json!({"ghost": ghost}));
+        }
+      }
+    }
+    layouts.push(json!({"commits": commits}));
+  }
+  layouts
+}
+
+pub fn matches_query(q: &Value, d: &Doc) -> bool {
+  match q["type"].as_str().unwrap_or("") {
+    "match_all" => true,
+    "term" => d.kws(q["field"].as_str().unwrap_or("")).iter().any(|x| x.eq_ignore_ascii_case(q["value"].as_str().unwrap_or(""))),
+    _ => false,
+  }
+}
+
+fn impl_views(reader: &searchlite_core::api::IndexReader, query: &Value, aggs: &Value) -> Result<(BTreeMap<String, Value>, Vec<String>), String> {
+  let req = json!({"query": query, "limit": 1000, "aggs": aggs});
+  match idx::search(reader, &req) {
+    idx::Outcome::Ok(v) => {
+      let mut m = BTreeMap::new();
+      if let Some(a) = v.get("aggregations").and_then(|a| a.as_object()) {
+        for (k, r) in a {
+          m.insert(k.clone(), canon_impl(r));
+        }
+      }
+      Ok((m, idx::hit_ids(&v)))
+    }
+    idx::Outcome::Err(e) => Err(format!("error: {e}")),
+    idx::Outcome::Panic(e) => Err(format!("panic: {e}")),
+  }
+}
+
+/// switch off the per-segment thresholds of every node of a request (`aggs` map)
+fn neutralize_all(aggs: &mut Value) {
+  if let Some(m) = aggs.as_object_mut() {
+    for (_, a) in m.iter_mut() {
+      neutralize(a);
+      if let Some(sub) = a.get_mut("aggs") {
+        neutralize_all(sub);
+      }
+    }
+  }
+}
+
+/// kinds occurring in an aggregation tree
+fn kinds_of(agg: &Value, depth: usize, out: &mut Vec<(String, usize)>) {
+  out.push((agg["type"].as_str().unwrap_or("").to_string(), depth));
+  for (_, s) in subs_of(agg) {
+    kinds_of(&s, depth + 1, out);
+  }
+}
+
+fn nonempty_view(v: &Value) -> bool {
+  if let Some(bs) = v.get("buckets").and_then(|b| b.as_array()) {
+    return bs.iter().any(|b| b["count"].as_u64().unwrap_or(0) > 0);
+  }
+  v.get("total").and_then(|c| c.as_u64()).unwrap_or(0) > 0 || v.get("count").and_then(|c| c.as_u64()).unwrap_or(0) > 0 || v.get("value").and_then(|c| c.as_u64()).unwrap_or(0) > 0 || v.get("values").is_some()
+}
+
+/// candidate signatures for a blamed node, from the request alone (most specific first)
+fn candidate_sigs(node: &Value) -> Vec<&'static str> {
+  let mut out = Vec::new();
+  match node["type"].as_str().unwrap_or("") {
+    "terms" if node.get("min_doc_count").and_then(|m| m.as_u64()).unwrap_or(1) >= 2 || node.get("size").map(|s| !s.is_null()).unwrap_or(false) => {
+      out.push("aggs.threshold-per-segment.terms")
+    }
+    "rare_terms" => out.push("aggs.threshold-per-segment.rare_terms"),
+    "histogram" if node.get("min_doc_count").and_then(|m| m.as_u64()).unwrap_or(0) >= 2 => out.push("aggs.threshold-per-segment.histogram"),
+    "date_histogram" => {
+      if is_quarter(node) {
+        out.push("date_histogram.quarter-day31");
+      }
+      if fill_quirk(node) {
+        out.push("date_histogram.calendar-offset-fill");
+      }
+      if node.get("min_doc_count").and_then(|m| m.as_u64()).unwrap_or(0) >= 2 {
+        out.push("aggs.threshold-per-segment.date_histogram");
+      }
+    }
+    "top_hits" if node.get("from").and_then(|m| m.as_u64()).unwrap_or(0) >= 1 => out.push("top_hits.from-per-segment"),
+    "composite" if node["sources"].as_array().map(|s| s.iter().any(|x| x["type"] == "histogram" && is_i64(x["field"].as_str().unwrap_or("")))).unwrap_or(false) => {
+      out.push("composite.histogram-i64")
+    }
+    _ => {}
+  }
+  out
+}
+
+fn is_quarter(node: &Value) -> bool {
+  matches!(node.get("calendar_interval").and_then(|c| c.as_str()).map(|c| c.to_ascii_lowercase()).as_deref(), Some("quarter") | Some("1q"))
+}
+
+/// some date the request looks at (document values, `missing`, bounds), shifted by the offset,
+/// falls on a 31st of May
+fn sees_may31(node: &Value, docs: &[Doc]) -> bool {
+  let off = node.get("offset").and_then(|o| o.as_str()).and_then(interval_seconds).map(|s| (s * 1000.0) as i64).unwrap_or(0);
+  let field = node["field"].as_str().unwrap_or("");
+  let mut vals: Vec<i64> = docs.iter().flat_map(|d| d.nums(field).to_vec()).map(|v| v as i64).collect();
+  if let Some(m) = node.get("missing").and_then(|m| m.as_str()).and_then(parse_date_str) {
+    vals.push(m as i64);
+  }
+  for k in ["extended_bounds", "hard_bounds"] {
+    if let Some(b) = node.get(k).filter(|b| !b.is_null()) {
+      for e in ["min", "max"] {
+        if let Some(v) = b[e].as_str().and_then(parse_date_str) {
+          vals.push(v as i64);
+        }
+      }
+    }
+  }
+  vals.iter().any(|v| {
+    let (_, m, d) = civil_from_days((v - off).div_euclid(86_400_000));
+    m == 5 && d == 31
+  })
+}
+
+/// calendar interval + offset + (extended or hard) bounds
+fn fill_quirk(node: &Value) -> bool {
+  let has = |k: &str| node.get(k).map(|v| !v.is_null()).unwrap_or(false);
+  has("calendar_interval") && has("offset") && (has("extended_bounds") || has("hard_bounds"))
+}
+
+/// the node with its per-segment thresholds removed (limits that are applied once, after the
+/// merge, would give the same answer on the relaxed request)
+fn neutralize(node: &mut Value) {
+  match node["type"].as_str().unwrap_or("") {
+    "terms" => {
+      if let Some(m) = node.as_object_mut() {
+        m.remove("min_doc_count");
+        m.remove("size");
+      }
+    }
+    "rare_terms" => {
+      node["max_doc_count"] = json!(1_000_000);
+      if let Some(m) = node.as_object_mut() {
+        m.remove("size");
+      }
+    }
+    "histogram" | "date_histogram" => {
+      node["min_doc_count"] = json!(0);
+      if fill_quirk(node) {
+        if let Some(m) = node.as_object_mut() {
+          m.remove("offset");
+        }
+      }
+      if is_quarter(node) {
+        node["calendar_interval"] = json!("month");
+      }
+    }
+    "top_hits" => {
+      node["from"] = json!(0);
+    }
+    _ => {}
+  }
+}
+
+impl Prop for C12 {
   fn id(&self) -> &'static str {
     "C12"
   }
   fn rule(&self) -> &'static str {
-    "stub"
+    "case = (corpus of 1..24 docs over keyword/i64/f64/date single- and multi-valued fast fields, 3..5 segment layouts of it incl. one segment and one doc per segment, some with deleted ghosts / stale versions, match_all or term query, 1..2 aggregation trees to depth 3); every layout is searched and compared with the Rust oracle and with the Lean mechanism model; non-trivial = at least two matched documents, at least two layouts with different segment counts, and a non-empty expected response; distinct = distinct case JSON"
   }
-  fn count(&self, _tier: Tier) -> usize {
-    0
+  fn count(&self, tier: Tier) -> usize {
+    tier.pick(220, 10000)
   }
-  fn gen(&self, _rng: &mut Rng, _tier: Tier, _i: usize) -> Value {
-    json!(null)
+  fn gen(&self, rng: &mut Rng, _tier: Tier, i: usize) -> Value {
+    let big = rng.chance(1, 4);
+    let n = 1 + rng.below(if big { 24 } else { 12 });
+    let docs: Vec<Value> = (0..n).map(|d| gen_doc(rng, format!("d{d}"))).collect();
+    let n_layouts = 3 + rng.below(3);
+    let layouts = gen_layouts(rng, &docs, n_layouts);
+    let query = if rng.chance(2, 3) {
+      json!({"type": "match_all"})
+    } else {
+      json!({"type": "term", "field": pick_kw_field(rng), "value": *rng.pick(&KW_VALUES[..3])})
+    };
+    // two thirds of the cases stay away from the parameters of the known findings so that the
+    // bulk of the run checks everything else
+    let risky = i % 3 == 2;
+    let mut aggs = Map::new();
+    for a in 0..(1 + rng.below(2)) {
+      aggs.insert(format!("a{a}"), gen_agg(rng, 1, risky));
+    }
+    json!({"docs": docs, "layouts": layouts, "query": query, "aggs": aggs})
   }
-  fn run_case(&self, _drv: &mut Driver, _case: &Value, _s: &mut Summary) {}
+
+  fn run_case(&self, drv: &mut Driver, case: &Value, s: &mut Summary) {
+    let docs_json = case["docs"].as_array().cloned().unwrap_or_default();
+    let docs: Vec<Doc> = docs_json.iter().map(parse_doc).collect();
+    let query = &case["query"];
+    let aggs = &case["aggs"];
+    let layouts = case["layouts"].as_array().cloned().unwrap_or_default();
+    let matched: Vec<&Doc> = docs.iter().filter(|d| matches_query(query, d)).collect();
+    let matched_ids: BTreeSet<String> = matched.iter().map(|d| d.id.clone()).collect();
+
+    // expected views
+    let agg_names: Vec<String> = aggs.as_object().map(|m| m.keys().cloned().collect()).unwrap_or_default();
+    let expected = |aggs: &Value| -> BTreeMap<String, Value> { aggs.as_object().map(|m| m.iter().map(|(k, a)| (k.clone(), oracle(a, &matched))).collect()).unwrap_or_default() };
+    let want = expected(aggs);
+
+    // build every layout once
+    let mut built: Vec<Built> = Vec::new();
+    for l in &layouts {
+      match build_layout(&docs_json, l) {
+        Ok(b) => built.push(b),
+        Err(e) => {
+          s.case(case, false);
+          s.count("skipped:layout-build-error");
+          s.notes.push(format!("layout build error: {e}"));
+          return;
+        }
+      }
+    }
+    let seg_counts: BTreeSet<usize> = built.iter().map(|b| b.segs.len()).collect();
+    let nontrivial = matched.len() >= 2 && seg_counts.len() >= 2 && want.values().any(nonempty_view);
+    s.case(case, nontrivial);
+    let mut kinds = Vec::new();
+    for (_, a) in aggs.as_object().cloned().unwrap_or_default() {
+      kinds_of(&a, 1, &mut kinds);
+    }
+    for (k, d) in &kinds {
+      s.count(&format!("kind:{k}"));
+      s.count(&format!("depth:{d}"));
+    }
+    s.count(if query["type"] == "match_all" { "query:match_all" } else { "query:term" });
+    s.add("layouts", built.len() as u64);
+    s.add("segments", built.iter().map(|b| b.segs.len() as u64).sum());
+
+    let mut readers = Vec::new();
+    for b in &built {
+      match b.index.reader() {
+        Ok(r) => readers.push(r),
+        Err(e) => {
+          s.fail("aggs.reader-error", "reader() failed on a freshly built layout", case, json!(e.to_string()));
+          return;
+        }
+      }
+    }
+
+    // ---- implementation runs
+    let mut got: Vec<BTreeMap<String, Value>> = Vec::new();
+    for (li, r) in readers.iter().enumerate() {
+      match impl_views(r, query, aggs) {
+        Ok((views, hits)) => {
+          let hit_set: BTreeSet<String> = hits.into_iter().collect();
+          if hit_set != matched_ids {
+            // matching is C04/C07 territory; without the same matched set C12 says nothing
+            s.count("skipped:matched-set-differs");
+            s.notes.push(format!("layout {li}: matched ids differ from the expected set"));
+            return;
+          }
+          got.push(views);
+        }
+        Err(e) => {
+          s.fail("aggs.search-error", "search with a valid aggregation request failed", case, json!({"layout": li, "error": e}));
+          return;
+        }
+      }
+    }
+
+    // ---- finder: every layout equals the independent computation
+    let by_id: BTreeMap<String, &Doc> = docs.iter().map(|d| (d.id.clone(), d)).collect();
+    let mt = |views: &BTreeMap<String, Value>, aggs: &Value| -> BTreeMap<String, Value> {
+      views
+        .iter()
+        .map(|(k, v)| {
+          let mut v = v.clone();
+          hits_modulo_ties(&mut v, &aggs[k], &by_id);
+          (k.clone(), v)
+        })
+        .collect()
+    };
+    let mut work = aggs.clone();
+    let mut guard = 0;
+    let mut first_round = true;
+    loop {
+      guard += 1;
+      if guard > 8 {
+        break;
+      }
+      let want_w = mt(&if first_round { want.clone() } else { expected(&work) }, &work);
+      let mut found: Option<(usize, Diff, Value, Value)> = None;
+      'outer: for (li, r) in readers.iter().enumerate() {
+        let views = if first_round {
+          mt(&got[li], &work)
+        } else {
+          match impl_views(r, query, &work) {
+            Ok((v, _)) => mt(&v, &work),
+            Err(e) => {
+              s.fail("aggs.search-error", "search with a valid aggregation request failed", case, json!({"layout": li, "error": e, "aggs": work}));
+              return;
+            }
+          }
+        };
+        for (name, w) in want_w.iter() {
+          let g = views.get(name).cloned().unwrap_or(Value::Null);
+          if let Some(d) = diff_view(name, &g, w) {
+            found = Some((li, d, g, w.clone()));
+            break 'outer;
+          }
+        }
+      }
+      first_round = false;
+      let Some((li, d, g, w)) = found else { break };
+      let node = node_at(&work, &d.path).cloned().unwrap_or(Value::Null);
+      let kind = node["type"].as_str().unwrap_or("?").to_string();
+      let observed = json!({"layout": li, "segments": built[li].segs.len(), "path": d.path, "node": node, "diff": d.what, "impl": g, "expected": w});
+      let mut sig = format!("aggs.mismatch.{kind}");
+      let mut what = format!("aggregation `{kind}` differs from the computation over all matched live documents");
+      for cand in candidate_sigs(&node) {
+        if !sig.starts_with("aggs.mismatch") {
+          break;
+        }
+        // predicate of the candidate signature, checked on this case
+        let ok = if cand == "composite.histogram-i64" {
+          // no buckets at all in every layout although documents carry values
+          // every instance of the node (one per parent bucket) in every layout
+          let mut n_inst = 0usize;
+          let mut all_empty = true;
+          for r in readers.iter() {
+            match impl_views(r, query, &work) {
+              Ok((v, _)) => {
+                let mut cur: Vec<Value> = v.get(&d.path[0]).cloned().into_iter().collect();
+                for p in &d.path[1..] {
+                  cur = cur.iter().flat_map(|c| c["buckets"].as_array().cloned().unwrap_or_default()).filter_map(|b| b["subs"].get(p).cloned()).collect();
+                }
+                for c in cur {
+                  n_inst += 1;
+                  if !c["buckets"].as_array().map(|b| b.is_empty()).unwrap_or(false) {
+                    all_empty = false;
+                  }
+                }
+              }
+              Err(_) => all_empty = false,
+            }
+          }
+          n_inst > 0 && all_empty
+        } else {
+          // the one-segment layout is right, and without this node's thresholds every layout is
+          // every per-segment threshold of the tree switched off / only this node's left on
+          let mut relaxed = work.clone();
+          neutralize_all(&mut relaxed);
+          let mut only_this = relaxed.clone();
+          if let Some(n) = node_at_mut(&mut only_this, &d.path) {
+            *n = node.clone();
+            if let (Some(src), Some(dst)) = (node_at(&relaxed, &d.path).and_then(|x| x.get("aggs")).cloned(), node_at_mut(&mut only_this, &d.path)) {
+              dst["aggs"] = src;
+            }
+          }
+          let want_o = mt(&expected(&only_this), &only_this);
+          let want_r = mt(&expected(&relaxed), &relaxed);
+          let path_ok = |views: &BTreeMap<String, Value>, want: &BTreeMap<String, Value>| -> bool {
+            want.iter().all(|(name, w)| match diff_view(name, views.get(name).unwrap_or(&Value::Null), w) {
+              Some(d2) => !(d2.path.len() <= d.path.len() && d.path.starts_with(&d2.path)),
+              None => true,
+            })
+          };
+          let single_ok = built.iter().zip(readers.iter()).filter(|(b, _)| b.segs.len() == 1).all(|(_, r)| impl_views(r, query, &only_this).map(|(v, _)| path_ok(&mt(&v, &only_this), &want_o)).unwrap_or(false));
+          let relaxed_ok = readers.iter().all(|r| impl_views(r, query, &relaxed).map(|(v, _)| path_ok(&mt(&v, &relaxed), &want_r)).unwrap_or(false));
+          if cand == "date_histogram.calendar-offset-fill" {
+            // independent of the layout: without the offset every layout is right
+            relaxed_ok
+          } else if cand == "date_histogram.quarter-day31" {
+            // independent of the layout: a 31st of May is involved, and by month all is right
+            relaxed_ok && sees_may31(&node, &docs)
+          } else {
+            single_ok && relaxed_ok && built[li].segs.len() > 1
+          }
+        };
+        if ok {
+          sig = cand.to_string();
+          what = match cand {
+            "composite.histogram-i64" => "composite aggregation with a histogram source over an i64 field returns no buckets".to_string(),
+            "date_histogram.calendar-offset-fill" => "date_histogram with calendar interval, offset and bounds: the empty buckets created from the bounds lose the offset after the first step (add_calendar drops the time of day)".to_string(),
+            "date_histogram.quarter-day31" => "date_histogram by calendar quarter drops values dated 31 May (and the bounds fill when a bound is): truncate_calendar calls with_month(4) on the 31st before with_day(1)".to_string(),
+            "top_hits.from-per-segment" => "top_hits applies `from` in every segment's finish() and again in every merge: wrong window when the hits are spread over several segments".to_string(),
+            _ => format!("`{kind}` applies its doc-count threshold / size per segment before merging: wrong buckets when a key is spread over several segments"),
+          };
+        }
+      }
+      s.fail(&sig, &what, case, observed);
+      if sig.starts_with("aggs.mismatch") {
+        break;
+      }
+      // explained: take the node out and look for further, different mismatches
+      if sig == "composite.histogram-i64" {
+        remove_at(&mut work, &d.path);
+      } else if let Some(n) = node_at_mut(&mut work, &d.path) {
+        neutralize(n);
+      }
+      if work.as_object().map(|m| m.is_empty()).unwrap_or(true) {
+        break;
+      }
+    }
+
+    // ---- correspondence: mechanism model vs implementation, Spec vs oracle
+    let fields = field_kinds();
+    for (li, b) in built.iter().enumerate() {
+      // documents are numbered in index order (segment, then position in the segment)
+      let mut rank_ids: Vec<String> = Vec::new();
+      let mut segs: Vec<Vec<Value>> = Vec::new();
+      for seg in &b.segs {
+        let mut out = Vec::new();
+        for i in seg.iter().filter(|i| matched_ids.contains(&docs[**i].id)) {
+          out.push(docs[*i].model_json(rank_ids.len()));
+          rank_ids.push(docs[*i].id.clone());
+        }
+        segs.push(out);
+      }
+      for name in &agg_names {
+        let agg = &aggs[name];
+        let m = drv.call("C12", json!({"op": "run", "fields": fields, "segs": segs, "agg": agg}));
+        if m["ok"] != json!(true) {
+          s.disagree("aggs.model-error", case, json!({"layout": li, "agg": name}), m);
+          return;
+        }
+        let mv = canon_model(&m["resp"], agg, &rank_ids);
+        let iv = got[li].get(name).cloned().unwrap_or(Value::Null);
+        if let Some(d) = diff_view(name, &iv, &mv) {
+          s.disagree("aggs.run", case, json!({"layout": li, "path": d.path, "diff": d.what, "view": iv}), mv);
+          return;
+        }
+        if li == 0 {
+          let mut sv = canon_model(&m["spec"], agg, &rank_ids);
+          let mut ov = want[name].clone();
+          hits_modulo_ties(&mut sv, agg, &by_id);
+          hits_modulo_ties(&mut ov, agg, &by_id);
+          if let Some(d) = diff_view(name, &sv, &ov) {
+            s.disagree("aggs.spec-vs-oracle", case, json!({"path": d.path, "diff": d.what, "oracle": want[name]}), sv);
+            return;
+          }
+        }
+      }
+    }
+  }
+
+  fn finish(&self, _tier: Tier, s: &mut Summary) {
+    s.notes.push("kinds generated and modelled: terms (size, min_doc_count, missing), rare_terms, range, histogram (offset, extended/hard bounds, missing, min_doc_count), stats, extended_stats, value_count, cardinality, percentiles/percentile_ranks (exact mode), filter, composite, top_hits (numeric sorts), date_range, date_histogram (fixed and calendar intervals, offset, bounds, missing, min_doc_count), sub-aggregations to depth 3".into());
+    s.notes.push("not generated (not modelled): significant_terms, sampling, shard_size, pipeline aggregations, t-digest mode of percentiles (> 256 values), duplicate range keys, MAX_BUCKETS, top_hits sorted by _score or keyword fields".into());
+  }
 }
